@@ -7,6 +7,11 @@ func verifCheckInserted(body, dec, nonce string) {
 	if !verifStubActive() {
 		return
 	}
+	if len(body) > 0 && body[0] == 'F' {
+		// no body element: the document passes through, still consistently encoded
+		symAssert(dec == body, "a document without a body element is delivered unchanged (and still decodes with the declared encoding)")
+		return
+	}
 	symAssert(dec == body+"<RELOAD nonce="+nonce+">", "the decoded document is the original plus one reload script carrying the CSP nonce")
 }
 
